@@ -591,5 +591,20 @@ pub fn named_variants() -> Vec<Term> {
     names: vec!["n1".into(), "m".into()],
     lazy: true,
   })));
+  // a name table that lists the same string twice (legal): consumers that renumber names by
+  // string translate index 2 to the index of the first "a"
+  {
+    let m = MapSpec::new(
+      vec![
+        Seg { gl: 1, gc: 0, orig: Some((0, 1, 0, Some(0))) },
+        Seg { gl: 1, gc: 1, orig: Some((0, 1, 1, Some(1))) },
+        Seg { gl: 1, gc: 2, orig: Some((0, 2, 0, Some(2))) },
+      ],
+      &["s0"],
+      Some(&["ab\ncd"]),
+      &["a", "b", "a"],
+    );
+    v.push(Term::Sms(Box::new(SmsSpec { value: "abc".into(), name: "nvdup".into(), map: m, original_source: None, inner: None, remove: false })));
+  }
   v
 }
